@@ -176,6 +176,30 @@ bool walk(Range const &r, std::size_t limit, std::size_t &visited, F const &f)
     f(*it, visited);
     ++visited;
   }
+  // the same range consumed with `*it++` (what every iterator category must support) in lockstep
+  // with a `++it` walk: same elements, same length
+  {
+    auto const same = [](auto const &x, auto const &y) {
+      if constexpr (requires { x.pos(); x.value(); }) return x.pos() == y.pos() && &x.value() == &y.value();
+      else return x == y;
+    };
+    auto a = r.begin();
+    auto b = r.begin();
+    std::size_t k = 0;
+    while (a != e && b != e && k < limit)
+    {
+      auto const &&va = *a;
+      auto const &&vb = *b++;
+      if (!same(va, vb))
+      {
+        fail("grid::range|post-increment|element", "element " + std::to_string(k) + " read with *it++ differs from the one read with *it");
+        break;
+      }
+      ++a;
+      ++k;
+    }
+    if (k < limit && (a == e) != (b == e)) fail("grid::range|post-increment|length", "walking with it++ and with ++it does not end after the same number of steps (" + std::to_string(k) + ")");
+  }
   return true;
 }
 
